@@ -133,9 +133,9 @@ func crashScenario(w crashWorkload, analyse func(run crashRun, res vsched.Result
 // ---------------------------------------------------------------- phase 2: recovery of one image
 
 type crashExpect struct {
-	acked    kvState            // state after the acknowledged transactions
+	acked    kvState              // state after the acknowledged transactions
 	inflight []map[string]*string // writes of transactions called but not returned
-	everSet  map[string]bool    // every value ever written by a begun transaction
+	everSet  map[string]bool      // every value ever written by a begun transaction
 }
 
 type recoverOut struct {
